@@ -67,6 +67,11 @@ class Log:
         return len(self.lines())
 
 
+# worker timing: phenotype -> seconds to sleep inside the fitness function.  Used for the parallel evaluator so that
+# earlier individuals finish LATER than later ones ("regardless of how workers are scheduled")
+DELAYS: dict = {}
+
+
 def make_ff(path, tag, fn):
     def ff(p):
         fd = os.open(path, os.O_WRONLY | os.O_APPEND | os.O_CREAT)
@@ -74,6 +79,11 @@ def make_ff(path, tag, fn):
             os.write(fd, f"{tag} {p}\n".encode())
         finally:
             os.close(fd)
+        d = DELAYS.get(p, 0)
+        if d:
+            import time as _t
+
+            _t.sleep(d)
         return fn(p)
 
     return ff
@@ -143,6 +153,10 @@ def scenario(find, log, evname, mkev, kinds, kind_names, n, pre_mask, dup, seria
     inds = [Individual(rep.create_genotype(None), rep) for _ in range(n)]
     pop = list(inds) + ([inds[dup]] if dup is not None else [])
     ev = mkev()
+    DELAYS.clear()
+    if evname == "ParallelEvaluator":
+        # adversarial schedule: the first presented individuals are the slowest
+        DELAYS.update({serial: 0.25, serial + 1: 0.12})
     desc0 = f"{evname}, {n} individuals (phenotypes {serial}..{serial + n - 1}), already evaluated: {[i for i in range(n) if pre_mask[i]]}, presented twice: {dup}, via {via}"
     size = (n, sum(pre_mask), dup is not None, len(kind_names))
     out = {}
